@@ -10,9 +10,11 @@
      hap_okb / hap_presentb   every variant and allele / every variant of the haplotype exists in G
      spec_col / spec_mat      the cell-by-cell specification as a column / matrix *)
 From HV Require Import Prelude Tracts C04_Model C04_Check C04_CheckSeq C04_Proofs C04_ProofsSet C04_ProofsFile C04_ProofsSpec
-  C04_ProofsAnc C04_Legacy C04_ProofsPerm C04_ProofsDup C04_ProofsSeq C04_ProofsBp C04_ProofsOrder C04_ProofsTotal.
+  C04_ProofsAnc C04_Legacy C04_ProofsPerm C04_ProofsDup C04_ProofsSeq C04_ProofsBp C04_ProofsOrder C04_ProofsTotal
+  C04_ModelOpt C04_CheckOpt C04_ProofsOpt C04_ProofsOptC.
 From HV Require C05_Model.
-From Coq Require Import Permutation.
+From Coq Require Import Permutation QArith.
+Open Scope Z_scope.
 
 (* -- meaning of the two look-ups the statements are phrased with ------------------------- *)
 
@@ -527,3 +529,191 @@ Example C04_interleaved_example :
   /\ transform_haps (with_anc t_inter (PopField pop_inter)) = transform_haps t_inter.
 Proof. exact interleaved_example_lemma. Qed.
 Print Assumptions C04_interleaved_example.
+
+(* ============================================================================================================
+   Second strengthening round: everything `haptools transform` takes.  Further vocabulary (C04_ModelOpt / C04_CheckOpt):
+     textra                 the calls written unphased, --discard-missing, --maf (given or not), --chunk-size
+     transform_haps_o rare e t   transform_haps with check_missing / check_phase before it, the np.uint8 limit of
+                            the ancestry codes (256 labels) and the --maf filter after it; [rare k n] = "k ones among
+                            n samples is rarer than the threshold" (any test; IEEE doubles in the correspondence)
+     restrict m t           the input with the file samples selected by the mask m;  dmask t: samples without a
+                            missing call among the loaded records;  surviving e t: what transform_haps works on
+     o_phased e t           phased calls, complete calls unless --discard-missing
+     o_domain e t           o_phased and <= 256 labels (there the run must answer)
+     omask t m              the mask m read over the requested samples (the rows of f_expected)
+     holds_o mk md          the checker; mk / md k n = clearly not rarer / clearly rarer than the threshold
+   ============================================================================================================ *)
+
+(* without options, missing calls and with <= 256 labels it IS transform_haps: all theorems above carry over *)
+Theorem C04_opts_default : forall rare t c,
+  pop_overflow t = false -> bp_overflow t = false -> any_missing t = false ->
+  transform_haps_o rare (mke [] false false c) t = transform_haps t.
+Proof. exact opt_default_lemma. Qed.
+Print Assumptions C04_opts_default.
+
+(* --chunk-size changes nothing *)
+Theorem C04_opts_chunk_irrelevant : forall rare u d m c c' t,
+  transform_haps_o rare (mke u d m c) t = transform_haps_o rare (mke u d m c') t.
+Proof. exact opt_chunk_irrelevant_lemma. Qed.
+Print Assumptions C04_opts_chunk_irrelevant.
+
+(* "never guessed": an answer is only given when no loaded call is missing (or --discard-missing), no loaded
+   heterozygous call is unphased, and the labels fit the code width - otherwise the run fails *)
+Theorem C04_opts_answer_only_on_domain : forall rare e t out,
+  transform_haps_o rare e t = Ok out -> o_domain e t = true.
+Proof. exact opt_ok_domain_lemma. Qed.
+Print Assumptions C04_opts_answer_only_on_domain.
+
+(* the specification of the input restricted to some samples = those samples' rows of the specification of the
+   whole input: discarding a sample changes no other sample's cells and no record *)
+Theorem C04_expected_restrict : forall m t,
+  f_expected (restrict m t)
+  = let '(r, s, M) := f_expected t in (r, keep (omask t m) s, keep (omask t m) M).
+Proof. exact expected_restrict_lemma. Qed.
+Print Assumptions C04_expected_restrict.
+
+Theorem C04_omask_is_loaded_mask : forall t m,
+  length (t_data t) = length (t_samples t) -> length (pop_rows t) = length (t_samples t) ->
+  omask t m = keep (t_sm t) m.
+Proof. exact omask_loaded. Qed.
+Print Assumptions C04_omask_is_loaded_mask.
+
+(* on the domain and a well-formed surviving input: the file-level specification of the surviving samples,
+   filtered by --maf *)
+Theorem C04_opts_closed : forall rare e t,
+  o_domain e t = true -> wf_file (surviving e t) -> f_wellformed (surviving e t) = true ->
+  transform_haps_o rare e t
+  = Ok (if e_maf e then maf_filter rare (f_expected (surviving e t)) else f_expected (surviving e t)).
+Proof. exact opt_closed_lemma. Qed.
+Print Assumptions C04_opts_closed.
+
+(* --maf keeps exactly the haplotypes that are not rare, in order, with their cells; the samples stay *)
+Theorem C04_maf_filter_spec : forall rare recs ss M,
+  exists km, length km = length recs
+    /\ maf_filter rare (recs, ss, M) = (keep km recs, ss, map (keep km) M)
+    /\ forall i, (i < length recs)%nat -> nth i km false = negb (rare (col_count M i) (lenZ M)).
+Proof. exact maf_filter_spec_lemma. Qed.
+Print Assumptions C04_maf_filter_spec.
+
+Theorem C04_maf_filter_none_rare : forall rare recs ss M,
+  (forall i, (i < length recs)%nat -> rare (col_count M i) (lenZ M) = false) ->
+  Forall (fun row => length row = length recs) M ->
+  maf_filter rare (recs, ss, M) = (recs, ss, M).
+Proof. exact maf_filter_none_rare_lemma. Qed.
+Print Assumptions C04_maf_filter_none_rare.
+
+(* soundness of the checker evaluated on the implementation's output *)
+Theorem C04_holds_o_sound : forall mk md c,
+  holds_o mk md c = true ->
+  match oc_obs c with
+  | Ok (recs, ss, M) =>
+      o_phased (oc_e c) (oc_in c) = true ->
+      let '(xr, xs, xM) := f_expected (oc_in c) in
+      exists sm hm,
+        length sm = length xs /\ length hm = length xr
+        /\ ss = keep sm xs /\ recs = keep hm xr /\ M = map (keep hm) (keep sm xM)
+        /\ (e_discard (oc_e c) = false -> ss = xs)
+        /\ (e_maf (oc_e c) = false -> recs = xr)
+        /\ (forall i r, nth_error (f_rows (oc_in c)) i = Some r -> row_complete (fst (snd r)) = true ->
+              nth i sm false = true)
+        /\ (e_maf (oc_e c) = true -> forall i, (i < length xr)%nat ->
+              let k := col_count (keep sm xM) i in
+              let n := lenZ (keep sm xM) in
+              (mk k n = true -> nth i hm false = true) /\ (md k n = true -> nth i hm false = false))
+        /\ (f_omitted (oc_in c) = true -> oc_warned c = true)
+  | Err k => k = E_Unobserved \/ o_domain (oc_e c) (oc_in c) = false
+             \/ f_wellformed (surviving (oc_e c) (oc_in c)) = false
+  end.
+Proof. exact holds_o_sound_lemma. Qed.
+Print Assumptions C04_holds_o_sound.
+
+(* the cross-run clause: the run's answer equals every answer of the other runs on the same data *)
+Theorem C04_peers_agree_sound : forall o peers,
+  peers_agree o peers = true -> forall out out', o = Ok out -> In (Ok out') peers -> out = out'.
+Proof. exact peers_agree_sound_lemma. Qed.
+Print Assumptions C04_peers_agree_sound.
+
+(* the whole checker of the file relation (q = the exact value of the --maf threshold; the case's float is only
+   converted to q): holds_o with the margins below, and equal answers of all runs on the same data *)
+Theorem C04_holds_fileq_sound : forall q k peers,
+  holds_fileq q k peers = true ->
+  holds_o (keepQ q) (dropQ q) k = true
+  /\ (o_phased (oc_e k) (oc_in k) = true ->
+      forall out out', oc_obs k = Ok out -> In (Ok out') peers -> out = out').
+Proof. exact holds_fileq_sound_lemma. Qed.
+Print Assumptions C04_holds_fileq_sound.
+
+(* the margins of the --maf clause (q = the exact value of the threshold): at least 1e-9 above / below; they never
+   contradict each other *)
+Theorem C04_maf_margins_meaning : forall thr k n,
+  (keepQ thr k n = true -> exists q, thr = Some q /\ 0 < n /\ (q + epsQ <= mafQ k n)%Q)
+  /\ (dropQ thr k n = true -> exists q, thr = Some q /\ 0 < n /\ (mafQ k n + epsQ <= q)%Q).
+Proof. exact margins_meaning_lemma. Qed.
+Print Assumptions C04_maf_margins_meaning.
+
+Theorem C04_maf_margins_exclusive : forall thr k n, keepQ thr k n = true -> dropQ thr k n = true -> False.
+Proof. exact margins_exclusive_lemma. Qed.
+Print Assumptions C04_maf_margins_exclusive.
+
+(* the hypotheses are satisfiable; what is refused; what the checker rejects *)
+Example C04_opts_example :
+  wf_file (surviving e_o t_o) /\ o_domain e_o t_o = true /\ f_wellformed (surviving e_o t_o) = true
+  /\ transform_haps_o rare_half e_o t_o = Ok out_o
+  /\ transform_haps_o rare_half (mke [] true false None) t_o
+     = Ok ([(70, 1, 100); (71, 1, 100); (72, 1, 200)], [1; 3],
+           [[(true, false); (true, false); (false, true)]; [(true, true); (true, false); (false, false)]])
+  /\ transform_haps_o rare_half (mke [] false true None) t_o = Err E_Value
+  /\ transform_haps_o rare_half (mke [[false; true]] true true None) t_o = Err E_Value
+  /\ holds_o (fun k n => negb (rare_half k n)) rare_half (mkoc t_o e_o (Ok out_o) false) = true
+  /\ holds_o (fun k n => negb (rare_half k n)) rare_half
+       (mkoc t_o e_o (Ok ([(71, 1, 100)], [1], [[(true, false)]])) false) = false
+  /\ holds_o (fun k n => negb (rare_half k n)) rare_half
+       (mkoc t_o e_o (Ok ([(71, 1, 100)], [1; 3], [[(true, false)]; [(true, true)]])) false) = false
+  /\ holds_o (fun k n => negb (rare_half k n)) rare_half
+       (mkoc t_o e_o
+             (Ok ([(70, 1, 100); (71, 1, 100)], [1; 3], [[(true, false); (true, false)]; [(true, true); (true, false)]]))
+             false) = false.
+Proof. exact opt_example_lemma. Qed.
+Print Assumptions C04_opts_example.
+
+(* the np.uint8 ancestry codes: 256 labels are answered, the 257th is refused; C04_Model alone has no width *)
+Example C04_label_capacity_example :
+  length (pop_labels (wide_t 256)) = 256%nat
+  /\ transform_haps_o rare_half e_none (wide_t 256) = Ok ([(7, 1, 10)], [1], [[(false, false)]])
+  /\ length (pop_labels (wide_t 257)) = 257%nat
+  /\ transform_haps_o rare_half e_none (wide_t 257) = Err E_Overflow
+  /\ transform_haps (wide_t 257) = Ok ([(7, 1, 10)], [1], [[(false, false)]]).
+Proof. exact label_capacity_example_lemma. Qed.
+Print Assumptions C04_label_capacity_example.
+
+(* a haplotype without variants (outside the quantifier "1..many variants") matches vacuously in the specification,
+   whatever its label *)
+Theorem C04_no_variants_vacuous : forall G anc h d a, h_vars h = [] -> spec_strand G anc h d a = true.
+Proof. exact no_variants_vacuous_lemma. Qed.
+Print Assumptions C04_no_variants_vacuous.
+
+(* what the recorder compares (agree): model_geno e t = the genotype object and the haplotype collection at the call
+   hp.transform(gt, hp_gt).  The answer of transform_haps is the set-wise transform (C04_set_closed_all) of exactly
+   these, with the samples attached and --maf applied: the loaded genotypes are tied to the result *)
+Theorem C04_geno_is_what_is_transformed : forall rare e t G H,
+  model_geno e t = Some (G, H) ->
+  transform_haps_o rare e t
+  = match set_tr (uses_anc t) H G with
+    | Err k => Err k
+    | Ok (recs, M) =>
+        Ok (if e_maf e then maf_filter rare (recs, g_samples G, M) else (recs, g_samples G, M))
+    end.
+Proof. exact geno_transformed_lemma. Qed.
+Print Assumptions C04_geno_is_what_is_transformed.
+
+(* whatever the model answers passes the checker, for every MAF test that respects the margins (distinct sample names
+   and distinct output records; C04_opts_example is an instance) *)
+Theorem C04_model_passes_holds_o : forall rare mk md e t out,
+  (forall k n, mk k n = true -> rare k n = false) ->
+  (forall k n, md k n = true -> rare k n = true) ->
+  wf_file t -> NoDup (t_samples t) -> NoDup (recs_of (f_expected_haps t)) ->
+  wf_file (surviving e t) -> f_wellformed (surviving e t) = true ->
+  transform_haps_o rare e t = Ok out ->
+  holds_o mk md (mkoc t e (Ok out) (warns_missing t)) = true.
+Proof. exact model_passes_holds_o_lemma. Qed.
+Print Assumptions C04_model_passes_holds_o.
